@@ -15,16 +15,16 @@ import (
 // (start FEN + scripted or self-played moves), one request per searched
 // ply, and the experiments attached to each search.
 type SearchScenario struct {
-	World    string       `json:"world"` // "search"
-	TTBytes  int          `json:"tt_bytes"`
-	StartFEN string       `json:"start_fen"`
-	Prefix   []string     `json:"prefix,omitempty"` // moves played before the first search
-	Style    string       `json:"style"`            // "carry": one Board carried through MakeMove (datagen); "fresh": FromFEN+moves per search (UCI)
-	Steps    []SearchStep `json:"steps"`
-	Twins    int          `json:"twins,omitempty"`    // number of persistent twin engines (0 = none)
-	Noise    bool         `json:"noise,omitempty"`    // a further engine searching unrelated positions interleaved with the twins
-	Spsa     []SpsaSet    `json:"spsa,omitempty"`     // spsa build only: parameter values set before the run
-	NoOutputSmallTT bool  `json:"-"`
+	World           string       `json:"world"` // "search"
+	TTBytes         int          `json:"tt_bytes"`
+	StartFEN        string       `json:"start_fen"`
+	Prefix          []string     `json:"prefix,omitempty"` // moves played before the first search
+	Style           string       `json:"style"`            // "carry": one Board carried through MakeMove (datagen); "fresh": FromFEN+moves per search (UCI)
+	Steps           []SearchStep `json:"steps"`
+	Twins           int          `json:"twins,omitempty"` // number of persistent twin engines (0 = none)
+	Noise           bool         `json:"noise,omitempty"` // a further engine searching unrelated positions interleaved with the twins
+	Spsa            []SpsaSet    `json:"spsa,omitempty"`  // spsa build only: parameter values set before the run
+	NoOutputSmallTT bool         `json:"-"`
 }
 
 // SpsaSet is one `setoption`-style parameter assignment.
@@ -35,15 +35,15 @@ type SpsaSet struct {
 
 // SearchStep is one searched ply.
 type SearchStep struct {
-	Req       Request `json:"req"`
-	Sched     Sched   `json:"sched,omitempty"`
-	TwinSched []Sched `json:"twin_sched,omitempty"` // one per twin (interleaved among themselves)
-	SoftToHard bool   `json:"soft_to_hard,omitempty"` // twins get WithNodes(N of the primary) instead of the soft limit
-	Sweep     *Sweep  `json:"sweep,omitempty"`
-	Clear     bool    `json:"clear,omitempty"`  // Clear() before this search (all persistent engines)
-	Resize    int     `json:"resize,omitempty"` // ResizeTT(bytes) before this search
-	Play      string  `json:"play"`             // move to play afterwards: "best", "" (none; search the same root again) or UCI text
-	Research  bool    `json:"research,omitempty"` // search the same root once more with a small budget afterwards (engine reusable)
+	Req        Request `json:"req"`
+	Sched      Sched   `json:"sched,omitempty"`
+	TwinSched  []Sched `json:"twin_sched,omitempty"`   // one per twin (interleaved among themselves)
+	SoftToHard bool    `json:"soft_to_hard,omitempty"` // twins get WithNodes(N of the primary) instead of the soft limit
+	Sweep      *Sweep  `json:"sweep,omitempty"`
+	Clear      bool    `json:"clear,omitempty"`    // Clear() before this search (all persistent engines)
+	Resize     int     `json:"resize,omitempty"`   // ResizeTT(bytes) before this search
+	Play       string  `json:"play"`               // move to play afterwards: "best", "" (none; search the same root again) or UCI text
+	Research   bool    `json:"research,omitempty"` // search the same root once more with a small budget afterwards (engine reusable)
 }
 
 // Sweep runs the same request from the same engine state (clones) at many
@@ -57,18 +57,18 @@ type Sweep struct {
 
 // SearchOutcome is the result of running a scenario.
 type SearchOutcome struct {
-	Violations []Violation     `json:"violations,omitempty"`
+	Violations []Violation      `json:"violations,omitempty"`
 	Stats      map[string]int64 `json:"stats"`
-	Sigs       []string        `json:"-"`
-	History    []string        `json:"history,omitempty"`
-	SimUS      int64           `json:"sim_us"`
+	Sigs       []uint64         `json:"-"`
+	History    []string         `json:"history,omitempty"`
+	SimUS      int64            `json:"sim_us"`
 }
 
 type searchRun struct {
-	sc    *SearchScenario
-	out   *SearchOutcome
-	keep  bool // keep history text
-	stop  func() bool
+	sc   *SearchScenario
+	out  *SearchOutcome
+	keep bool // keep history text
+	stop func() bool
 }
 
 func (r *searchRun) stat(k string, d int64) { r.out.Stats[k] += d }
@@ -197,8 +197,15 @@ func (r *searchRun) run() {
 			return
 		}
 
+		if len(twins) > 0 && !twinnable(req, &res) {
+			// the twins cannot be given this search (stopped from outside, pondering,
+			// or cut short by the harness cap): their state no longer follows the
+			// primary's, so nothing after this point could be compared
+			r.stat("twin_run_ended_untwinnable", 1)
+			return
+		}
 		// persistent twins: same request (or its hard-budget translation), interleaved
-		if len(twins) > 0 && twinnable(req, &res) {
+		if len(twins) > 0 {
 			treq := req
 			ignoreAbortLine := false
 			if st.SoftToHard && (req.SoftNodes > 0 || req.SoftTime > 0) && !res.Aborted {
@@ -294,6 +301,11 @@ func (r *searchRun) check(g *ref.Game, req Request, res *SearchResult, si int) {
 // account updates the reach counters (faults that actually fired, probes).
 func (r *searchRun) account(res *SearchResult, req Request, g *ref.Game) {
 	r.stat("searches", 1)
+	if res.Aborted || req.SoftNodes > 0 || req.SoftTime > 0 {
+		// one distinct non-trivial case: this root and history, this request
+		// (abort instant included), this table size
+		r.out.Sigs = append(r.out.Sigs, hash64(fmt.Sprintf("%s|%v|%d|%+v", r.sc.StartFEN, len(g.Moves), r.sc.TTBytes, req)+g.Cur().FEN()))
+	}
 	r.stat("polls", int64(res.Polls))
 	r.stat("nodes", int64(res.Nodes))
 	if res.Capped {
@@ -525,4 +537,3 @@ func (r *searchRun) runInterleaved(si int, twins []*search.Search, mk func() *bo
 	}
 	return results
 }
-
